@@ -314,3 +314,194 @@ def multicomplex_default_step_cases(nd):
                 ok = bool(np.all(np.abs(v - ex) <= 1e-8 * np.maximum(1.0, np.abs(ex))))
                 out['%s,n=%d,array' % (name, n)] = (ok, None if ok else dict(x=xa.tolist(), got=v.tolist(), exact=ex.tolist()))
     return out
+
+
+# ------------------------------------------------------------------------------------------------------------------
+def jacobian_view_cases(nd):
+    """user functions that return (a view of) their argument or of a work array: identity, reversed, sliced, reshaped,
+    .real/.imag/.T of the input.  All affine, so the Jacobian is a 0/1 (or constant) matrix that every method must
+    reproduce exactly to rounding.  Aliasing between the value returned by f and an internal work vector shows here."""
+    x = np.array([0.3, -1.2, 2.0, 0.7])
+    I = np.eye(4)
+    funs = [('identity', lambda z: z, I), ('reversed-view', lambda z: z[::-1], I[::-1]), ('slice', lambda z: z[1:], I[1:]),
+            ('strided', lambda z: z[::2], I[::2]), ('reshape-ravel', lambda z: z.reshape(2, 2).T.ravel(), I[[0, 2, 1, 3]]),
+            ('scaled-in-place-copy', lambda z: 2 * z, 2 * I), ('asarray', lambda z: np.asarray(z), I)]
+    bad = []
+    cnt = 0
+    with warnings.catch_warnings():
+        warnings.simplefilter('ignore')
+        for name, f, want in funs:
+            for method in ('central', 'forward', 'backward', 'complex', 'multicomplex'):
+                for order in ((2, 4) if method in ('central', 'complex', 'forward') else (2,)):
+                    if method == 'multicomplex' and name == 'reshape-ravel':
+                        continue          # Bicomplex offers no reshape
+                    cnt += 1
+                    try:
+                        J = nd.Jacobian(f, method=method, order=order)(x)
+                    except Exception as e:
+                        bad.append(dict(f=name, method=method, order=order, raised=repr(e)[:100])); continue
+                    if np.shape(J) != want.shape or not np.allclose(J, want, rtol=1e-7, atol=1e-7):
+                        bad.append(dict(f=name, method=method, order=order, got=np.asarray(J).round(6).tolist(), expected=want.tolist()))
+    return cnt, bad
+
+
+def _admissible(calls, x, kind, hmax, maxnz):
+    """exact admissibility of recorded evaluation points (floating point): one-sidedness, mirror points, unmoved coordinates
+    bit-identical to x, reach"""
+    bad = []
+    offs = []
+    for z in calls:
+        if isinstance(z, tuple):
+            z1, z2 = np.atleast_1d(z[0]).ravel(), np.atleast_1d(z[1]).ravel()
+        else:
+            z1 = np.atleast_1d(np.asarray(z)).ravel(); z2 = np.zeros(z1.shape)
+        xr = np.atleast_1d(x).ravel()
+        offs.append((np.real(z1) - xr, np.imag(z1), np.real(z2), np.imag(z2)))
+    for k, (dr, di, jr, ji) in enumerate(offs):
+        if kind == 'forward' and not (np.all(dr >= 0) and np.all(di == 0) and np.all(jr == 0) and np.all(ji == 0)):
+            bad.append(('below x / not real', k, dr.tolist()))
+        if kind == 'backward' and not (np.all(dr <= 0) and np.all(di == 0) and np.all(jr == 0) and np.all(ji == 0)):
+            bad.append(('above x / not real', k, dr.tolist()))
+        if kind == 'imag-only' and not np.all(dr == 0):
+            bad.append(('real part moved', k, dr.tolist()))
+        if kind == 'symmetric' and not any(np.allclose(dr, -o[0], rtol=0, atol=1e-12 * (1 + np.max(np.abs(dr)))) for o in offs):
+            bad.append(('no mirror point', k, dr.tolist()))
+        mag = np.maximum.reduce([np.abs(dr), np.abs(di), np.abs(jr), np.abs(ji)])
+        if np.any(mag > 2 * hmax * (1 + 1e-9)):
+            bad.append(('reach', k, mag.tolist()))
+        if np.count_nonzero(mag) > maxnz:
+            bad.append(('more than %d coordinates differ from x' % maxnz, k, mag.tolist()))
+    return bad
+
+
+def evaluation_point_cases(fd, Bicomplex):
+    """the evaluation points of every difference function on floats that do not survive (x + h) - h exactly (0.1, 0.3, a tiny
+    coordinate next to a large one) and steps that are not powers of two: coordinates that a quotient does not perturb must be
+    bit-identical to x, one-sided methods must stay on their side"""
+    KIND = {'_forward': 'forward', '_backward': 'backward', '_central': 'symmetric', '_central_even': 'symmetric', '_central2': 'symmetric',
+            '_complex': 'imag-only', '_multicomplex': 'imag-only', '_multicomplex2': 'imag-only'}
+    bad = []
+    cnt = 0
+    for clsname in ('JacobianDifferenceFunctions', 'HessdiagDifferenceFunctions', 'HessianDifferenceFunctions'):
+        cls = getattr(fd, clsname)
+        for x, h in [(np.array([0.1, 0.3, 2.0]), np.array([0.01, 0.03, 0.007])), (np.array([1e-18, 2.0, -0.7]), np.array([1e-3, 3e-3, 1.1e-3])),
+                     (np.array([0.3, -0.1]), np.array([0.07, 0.0013]))]:
+            for name, kind in KIND.items():
+                if not hasattr(cls, name):
+                    continue
+                calls = []
+
+                def f(z):
+                    calls.append((np.array(z.z1), np.array(z.z2)) if isinstance(z, Bicomplex) else np.array(z))
+                    im = 1j if (isinstance(z, Bicomplex) or np.iscomplexobj(z)) else 0
+                    if isinstance(z, Bicomplex):
+                        return Bicomplex(np.array([0.5 + 0.25j, 1.0]), np.array([0.125, 0.75j])) if clsname[0] == 'J' else Bicomplex(0.5 + 0.25j, 0.125 + 1j)
+                    return np.array([0.5 + 0.25 * im, -1.0 + 0.5 * im]) if clsname[0] == 'J' else 0.5 + 0.25 * im
+                fx = np.array([0.5, -1.0]) if clsname[0] == 'J' else 0.5
+                cnt += 1
+                try:
+                    getattr(cls, name)(f, fx, x, h)
+                except Exception as e:
+                    bad.append(dict(cls=clsname, func=name, x=x.tolist(), raised=repr(e)[:100])); continue
+                pr = _admissible(calls, x, kind, float(np.max(h)), 2 if clsname[:7] == 'Hessian' else 1)
+                if pr:
+                    bad.append(dict(cls=clsname, func=name, x=x.tolist(), h=h.tolist(), problems=[str(p)[:120] for p in pr[:2]]))
+    return cnt, bad
+
+
+def elementwise_default_step_cases(nd):
+    """the element-wise clause with the library's own default step generator (not the stub): every element of the result, its
+    error estimate and final step are bit-identical to the scalar evaluation of that element, for the real-step methods, also
+    when the array mixes magnitudes from 1e-3 to 1e10 or puts a dominating element first"""
+    bad = []
+    cnt = 0
+    funs = [('x**3', lambda x: x * x * x), ('1/x', lambda x: 1.0 / x), ('sin', np.sin), ('x*sqrt(x)', lambda x: x * np.sqrt(x))]
+    arrays = [np.array([1.3, 0.4, 1e10, 7.0]), np.array([3000.0, 0.5, 40.0, 1e-3]), np.array([[0.7, 1e6], [2.5e-3, 11.0]]), np.array([0.9, 1.1, 1.3])]
+    with warnings.catch_warnings():
+        warnings.simplefilter('ignore')
+        for name, f in funs:
+            for method, n in (('central', 1), ('forward', 1), ('backward', 2), ('central', 3)):
+                d = nd.Derivative(f, method=method, n=n, full_output=True)
+                for arr in arrays:
+                    cnt += 1
+                    val, info = d(arr)
+                    if np.shape(val) != arr.shape:
+                        bad.append(dict(fun=name, method=method, n=n, problem='shape')); continue
+                    for idx in np.ndindex(arr.shape):
+                        sv, si = d(float(arr[idx]))
+                        same = (val[idx] == sv or (np.isnan(val[idx]) and np.isnan(sv))) and \
+                            (info.error_estimate[idx] == si.error_estimate or (np.isnan(info.error_estimate[idx]) and np.isnan(si.error_estimate))) and \
+                            info.final_step[idx] == si.final_step
+                        if not same:
+                            bad.append(dict(fun=name, method=method, n=n, array=arr.tolist(), element=float(arr[idx]), in_array=(float(val[idx]), float(info.final_step[idx])),
+                                            alone=(float(sv), float(si.final_step))))
+                            break
+    return cnt, bad
+
+
+def lagrange_weights_exact(nodes, x0, n):
+    """exact rational reference for fd_weights_all: row k = k-th derivative at x0 of the Lagrange basis polynomials
+    (polynomial coefficient arithmetic over Fractions)"""
+    from fractions import Fraction
+    import math
+    xs = [Fraction(float(v)) for v in nodes]
+    x0 = Fraction(float(x0))
+    m = len(xs)
+    rows = [[Fraction(0)] * m for _ in range(n + 1)]
+    for v in range(m):
+        # basis polynomial in powers of (x - x0): prod_{u != v} ((x - x0) - (xs[u] - x0)) / (xs[v] - xs[u])
+        coef = [Fraction(1)]
+        den = Fraction(1)
+        for u in range(m):
+            if u == v:
+                continue
+            a = xs[u] - x0
+            new = [Fraction(0)] * (len(coef) + 1)
+            for i, c in enumerate(coef):
+                new[i + 1] += c
+                new[i] -= a * c
+            coef = new
+            den *= xs[v] - xs[u]
+        for k in range(n + 1):
+            rows[k][v] = coef[k] * math.factorial(k) / den if k < len(coef) else Fraction(0)
+    return rows
+
+
+def fd_weights_exact_cases(fb):
+    """fd_weights_all / fd_weights against the exact rational Lagrange weights: many nodes and high orders (up to 14 nodes,
+    order 13), node sets at scale 2**-30 and 2**20, nearly (not exactly) equidistant nodes, expansion point on / off a node"""
+    from fractions import Fraction
+    rng = np.random.default_rng(2)
+    bad = []
+    cnt = 0
+    sets = []
+    for m in (3, 5, 7, 9, 13, 14):
+        sets.append(('random m=%d' % m, np.sort(rng.uniform(-1, 1, m)) + np.arange(m) * 0.05))
+    for m in (3, 5, 7, 9):
+        k = np.arange(m) - m // 2
+        sets.append(('nearly equidistant m=%d' % m, k * 0.25 * (1 + 1e-6 * rng.uniform(-1, 1, m)) + 1e-7 * rng.uniform(-1, 1, m)))
+        sets.append(('scale 2**-30 non-uniform m=%d' % m, (k + rng.uniform(-0.3, 0.3, m)) * 2.0 ** -30))
+        sets.append(('scale 2**20 m=%d' % m, (k + rng.uniform(-0.3, 0.3, m)) * 2.0 ** 20))
+    for name, nodes in sets:
+        m = len(nodes)
+        for x0 in (float(nodes[m // 2]), float(nodes[0] + 0.37 * (nodes[1] - nodes[0]))):
+            for n in sorted({1, 2, min(4, m - 1), m - 1}):
+                if n >= m:
+                    continue
+                cnt += 1
+                ref = lagrange_weights_exact(nodes, x0, n)
+                W = np.asarray(fb.fd_weights_all(nodes, x0, n), dtype=float)
+                r = np.asarray(fb.fd_weights(nodes, x0, n), dtype=float)
+                ok = W.shape == (n + 1, m)
+                if ok:
+                    for k in range(n + 1):
+                        scale = max(abs(v) for v in ref[k]) or Fraction(1)
+                        tol = 1e-7 if m <= 9 else 1e-4          # conditioning of 13/14-node sets
+                        for v in range(m):
+                            if abs(Fraction(float(W[k, v])) - ref[k][v]) > Fraction(tol) * scale:
+                                ok = False
+                    scale = max(abs(v) for v in ref[n]) or Fraction(1)
+                    ok = ok and all(abs(Fraction(float(r[v])) - ref[n][v]) <= Fraction(1e-7 if m <= 9 else 1e-4) * scale for v in range(m))
+                if not ok:
+                    bad.append(dict(nodes=name, x0=x0, n=n, row_n=np.asarray(r).tolist()[:5], exact_row_n=[float(v) for v in ref[n]][:5]))
+    return cnt, bad
